@@ -219,7 +219,7 @@ fn skip_nl(mut rest: &str) -> (bool, usize) {
 
 fn lstrip_block(s: &str) -> &str {
     let trimmed = s.trim_end_matches(|x: char| x.is_whitespace() && !is_nl(x));
-    if trimmed.is_empty() || trimmed.as_bytes().get(trimmed.len() - 1) == Some(&b'\n') {
+    if trimmed.is_empty() || matches!(trimmed.as_bytes().last(), Some(&b'\n' | &b'\r')) {
         trimmed
     } else {
         s
